@@ -120,6 +120,32 @@ def _handmade():
             h3.mo = MolecularOrbitals(mo.kind, mo.norba, mo.norbb, mo.occs.copy(), c, mo.energies.copy(), mo.irreps)
             assert nb_new == nb_old + 1
             out.append(("fchk:generalized-contraction", h3))
+            # the same wavefunction with the shells stored in reverse order (not grouped by centre)
+            for src_name, tag in (("hf_sto3g.fchk", "hf"), ("water_sto3g_hf_g03.fchk", "water")):
+                w0 = load_one(str(d / src_name))
+                shs = list(w0.obasis.shells)
+                offs = np.cumsum([0] + [sh.nbasis for sh in shs])
+                order = list(range(len(shs)))[::-1]
+                if len(order) > 3:
+                    order[0], order[2] = order[2], order[0]
+                rows = np.concatenate([np.arange(offs[i], offs[i + 1]) for i in order])
+                w1 = copy.deepcopy(w0)
+                w1.obasis = MolecularBasis([copy.deepcopy(shs[i]) for i in order], w0.obasis.conventions,
+                                           w0.obasis.primitive_normalization)
+                m0 = w0.mo
+                w1.mo = MolecularOrbitals(m0.kind, m0.norba, m0.norbb, m0.occs.copy(), m0.coeffs[rows].copy(),
+                                          m0.energies.copy(), m0.irreps)
+                w1.one_rdms = {}
+                out.append((f"fchk:{tag}-shells-unsorted", w1))
+            # restricted orbitals whose occs_aminusb sums to zero but is not zero
+            h4 = copy.deepcopy(h)
+            occs4 = np.zeros(norb)
+            occs4[:3] = [2.0, 1.0, 1.0]
+            am4 = np.zeros(norb)
+            am4[1:3] = [0.5, -0.5]
+            h4.mo = MolecularOrbitals("restricted", norb, norb, occs4, mo.coeffs.copy(), mo.energies.copy(),
+                                      mo.irreps, occs_aminusb=am4)
+            out.append(("fchk:aminusb-zero-sum", h4))
         except Exception as exc:  # pragma: no cover
             out.append(("handmade-error:" + repr(exc)[:80], None))
         mol = IOData(atnums=np.array([8, 1, 1]), atcoords=np.array([[0, 0, 0.0], [0, 1.5, 1.1], [0, -1.5, 1.1]]),
@@ -232,6 +258,26 @@ def _one_case(ctx, tmp, label, obj, fmt, ac, mode):
     ctx.count(f"dump-{mode}", [label, fmt, ac], f"{fmt}/{outcome}/ac={int(ac)}",
               nontrivial=outcome in ("ok", "DumpError") or "prepar" not in outcome.lower(),
               sample={"object": label, "fmt": fmt, "allow_changes": ac, "outcome": outcome})
+    if mode == "one" and outcome == "ok" and fmt in ("wfn", "wfx", "molden", "molekel") and o.mo is not None \
+            and o.mo.kind != "generalized" and o.mo.occs is not None:
+        # the written file must carry the alpha/beta occupations of the object it was given (as is or converted)
+        from iodata import load_one
+
+        try:
+            with warnings.catch_warnings():
+                warnings.simplefilter("ignore")
+                back = load_one(path, fmt=fmt)
+        except Exception:
+            back = None  # unreadable own output is C01/C02's business, not C09's
+        if back is not None and back.mo is not None and back.mo.occs is not None:
+            def occ_key(m):
+                return sorted(np.round(np.concatenate([m.occsa, m.occsb]), 5).tolist())
+            ka = [x for x in occ_key(o.mo) if x != 0]
+            kb = [x for x in occ_key(back.mo) if x != 0]
+            if len(ka) != len(kb) or not np.allclose(ka, kb, atol=2e-5):
+                return (f"written-occupations-differ:{fmt}",
+                        f"dump_one to {fmt} (allow_changes={ac}) succeeded but the file carries alpha/beta occupations "
+                        f"{kb[:8]} while the object has {ka[:8]}: a conversion happened silently or was not equivalent")
     if mode == "one" and outcome == "ok":
         nwarn = sum(1 for w in wlist if issubclass(w.category, PrepareDumpWarning))
         if not ac and ret is not o:
